@@ -438,3 +438,29 @@ def resolve_const(mod, fn, expr, depth=4):
             return expr
         return expr
     return expr
+
+
+def quantifier_of(fn):
+    """('all' | 'any', element text, iterable text, loop variable) for a function that returns a quantified test over one iterable:
+
+        return all(P(x) for x in IT)                      for x in IT: if not P(x): return False   ... return True
+        return any(P(x) for x in IT)                      for x in IT: if P(x): return True        ... return False      (or None)"""
+    body = [s for s in fn.body if not (isinstance(s, ast.Expr) and isinstance(s.value, ast.Constant))]
+    if len(body) == 1 and isinstance(body[0], ast.Return) and isinstance(body[0].value, ast.Call) and call_name(body[0].value) in ("all", "any") and len(body[0].value.args) == 1:
+        g = body[0].value.args[0]
+        if isinstance(g, (ast.GeneratorExp, ast.ListComp)) and len(g.generators) == 1 and not g.generators[0].ifs:
+            return call_name(body[0].value), U(g.elt), U(g.generators[0].iter), U(g.generators[0].target)
+        return None
+    if len(body) == 2 and isinstance(body[0], ast.For) and isinstance(body[1], ast.Return) and not body[0].orelse and len(body[0].body) == 1 and isinstance(body[0].body[0], ast.If):
+        lp, iff, last = body[0], body[0].body[0], body[1]
+        if iff.orelse or len(iff.body) != 1 or not isinstance(iff.body[0], ast.Return):
+            return None
+        inner, final = U(iff.body[0].value), U(last.value)
+        test = iff.test
+        neg = isinstance(test, ast.UnaryOp) and isinstance(test.op, ast.Not)
+        elt = U(test.operand) if neg else U(test)
+        if neg and inner == "False" and final == "True":
+            return "all", elt, U(lp.iter), U(lp.target)
+        if not neg and inner == "True" and final == "False":
+            return "any", elt, U(lp.iter), U(lp.target)
+    return None
